@@ -26,7 +26,7 @@ ASSUMPTIONS = [
     'documented order of the coefficients: selected pairs unique and sorted by (parameter, dimension), covariate-minor',
     'distributional agreement of sampling is decided under C06; here only shapes and point-mass models']
 REQUIRED = ['kind:gauss', 'kind:lognorm', 'kind:trunc', 'kind:pooled', 'kind:hetero', 'sel:default', 'sel:explicit',
-            'sel:unsorted', 'sel:dup', 'zero_cov', 'zero_beta', 'oor', 'direct', 'int_theta', 'dims_named_after_selection']
+            'sel:unsorted', 'sel:dup', 'zero_cov', 'zero_beta', 'oor', 'direct', 'int_theta', 'dims_named_after_selection', 'covariates_named_late', 'late_n_ids']
 
 
 def _theta_for(draw, spec, n_ids, cov):
@@ -178,7 +178,16 @@ def check(case):
     beta = theta[nb:].reshape(len(sel), n_cov)
 
     with case.clause('construct'):
-        m = ref.build_pop(pop, None, n_ids)
+        late = base['kind'] == 'hetero' and pop['sel'] is None and n_ids >= 2 and len(s['theta']) % 2 == 0
+        if late:
+            # built around a heterogeneous model that is still at its default of one individual and grown afterwards
+            # (documented: all parameters are modelled by the covariate model again)
+            m = ref.build_pop(pop, None, None)
+            if n_ids >= 3:
+                m.set_n_ids(n_ids - 1)
+            case.labels.append('late_n_ids')
+        else:
+            m = ref.build_pop(pop, None, n_ids)
         m.set_n_ids(n_ids)
         und = ref.build_pop(base, None, n_ids)       # the underlying model, separately
         und.set_n_ids(n_ids)
@@ -194,6 +203,17 @@ def check(case):
             und.set_dim_names(list(dn))
             case.equal(list(m.get_dim_names()), dn, 'dimension names after set_dim_names')
             case.equal(m.n_parameters(), nb + len(sel) * n_cov, 'n_parameters after naming the dimensions')
+        if case.fails:
+            return
+
+    if s.get('rename_dims') is not None and (s['n_ids'] + len(s['theta'])) % 3 == 0:
+        # the covariates are named after the model was configured: every coefficient is called after its covariate's
+        # CURRENT name
+        with case.clause('rename_covariates'):
+            new_cn = ['covariate %s' % chr(65 + c) for c in range(n_cov)]
+            m.set_covariate_names(list(new_cn))
+            case.equal(list(m.get_covariate_names()), new_cn, 'covariate names after set_covariate_names')
+            case.labels.append('covariates_named_late')
         if case.fails:
             return
 
